@@ -198,6 +198,15 @@ def c10(tier, replay=None):
                         fcases.append(("init", sgn * d, 0.0, -m_, 5))
                         fcases.append(("init", sgn * d, 0.0, -m_, 0))
 
+    # magnitudes that need three exponent digits (scientific notation with exponents beyond +-99), and the largest /
+    # smallest normal doubles
+    for d, su, sc in ((1.5e100, 0.0, -99), (-6.02e123, 3e121, -121), (2.5e-100, 0.0, 101), (9.99e99, 0.0, -97), (1.0e100, 0.0, -100), (1.25e-99, 0.0, 101), (7.5e-101, 2e-102, 102),
+                      (1.7976931348623157e308, 0.0, -300), (2.2250738585072014e-308, 0.0, 310)):
+        fcases.append(("init", d, su, sc, 5))
+        fcases.append(("init", -d, su, sc, 0))
+    for d, su, rule in ((1.2345e-150, 2.1e-153, 19), (1e300, 0.0, 9), (6.02214076e123, 4.5e117, 27), (-3.3e-200, 1e-203, 19), (1e100, 3e98, 19), (9.95e99, 6e98, 9)):
+        fcases.append(("auto", d, su, rule, 0))
+
     def run_format(ch):
         cmds = []
         for mode, d, su, a, mlz in ch:
